@@ -138,6 +138,11 @@ class LegInterp:
                 for x in t.elts:
                     self.assign(x, Opaque(v.text), node)
                 return
+            if isinstance(v, ShapeVal) and len(v.dims) == len(t.elts):
+                # d, Dl, Dr = X.shape: one dimension (product of leg dimensions) per name
+                for x, dims in zip(t.elts, v.dims):
+                    self.assign(x, DimVal(dims), node)
+                return
             if not isinstance(v, TupleVal) or len(v.items) != len(t.elts):
                 raise LegError(f'{self.fi.qual}: cannot unpack `{norm(node)[:60]}`')
             for x, y in zip(t.elts, v.items):
